@@ -54,7 +54,6 @@ pub fn accept_none_counters() -> (u64, u64) {
     )
 }
 
-
 pub use crate::network::wire_hooks as wire;
 
 pub use crate::crypto::verif_hooks as crypto;
